@@ -171,6 +171,8 @@ def rewrite(toks, pattern, template, count=None, what=""):
     ms = find_matches(toks, pattern)
     if count == "+" and not ms:
         raise RuleMismatch("rule %s: pattern `%s` not found" % (what, pattern))
+    if count == "?" and len(ms) > 1:
+        raise RuleMismatch("rule %s: pattern `%s` matched %d times, expected at most 1" % (what, pattern, len(ms)))
     if isinstance(count, int) and len(ms) != count:
         raise RuleMismatch("rule %s: pattern `%s` matched %d times, expected %d" % (what, pattern, len(ms), count))
     if not ms:
